@@ -404,6 +404,21 @@ impl<T: HCfg> World<T> {
                 line.insert("id".into(), json!(r.map(|k| k as i64).unwrap_or(-1)));
                 line.insert("ok".into(), json!(r.is_some()));
             }
+            "forge" => {
+                // a forged / malformed packet is put into the inbox of peer `to` (C08)
+                let from = s["from"].as_u64().unwrap_or(0) as Addr;
+                let to = s["to"].as_u64().unwrap_or(0) as Addr;
+                let kind = s["kind"].as_str().unwrap_or("badPayload").to_string();
+                let salt = s["salt"].as_u64().unwrap_or(0);
+                let payload: Option<Vec<u8>> = s.get("payload").and_then(|v| v.as_array()).map(|a| {
+                    a.iter().map(|x| x.as_u64().unwrap_or(0) as u8).collect()
+                });
+                let d = self.net.borrow_mut().forge(from, to, &kind, salt, payload);
+                line.insert("from".into(), json!(from));
+                line.insert("to".into(), json!(to));
+                line.insert("kind".into(), json!(kind));
+                line.insert("forged".into(), d);
+            }
             "kill" => {
                 line.insert("p".into(), json!(p));
                 if p < self.peers.len() {
